@@ -6,12 +6,28 @@
    transform) keeps the element sequence as documented, and the input/label pairing theorems.
    The element iterator (increment, decrement, advance by any signed offset: the loops of
    DataElementIterator::advance) dereferences exactly the element whose index it reports.
-   repartitionByClass gathers by a permutation (multiset of inputs and of labels unchanged, both
-   containers re-batched identically).
-   NOT proved (tied to the code by the correspondence run only, see DESIGN.md#C03): that the
-   repartitionByClass order is class-sorted and stable, binarySubProblem, view -> dataset.         *)
-From Coq Require Import List Arith Permutation.
-From SharkV Require Import ListAux C03Model C03Proofs C03Iter C03Class C12Model C12Proofs.
+   repartitionByClass gathers by THE stable sort by class label: the gather index is the unique
+   permutation of the positions that is sorted by (label, original position); the new label sequence is
+   ascending, no batch mixes classes, batch sizes are in [1,max], both containers are re-batched
+   identically (C03_repartition_by_class, C03_repartition_by_class_order,
+   C03_class_order_is_the_stable_sort); the loops of the C++ function (prefix sums of the class counts,
+   one scatter pass) compute that index (C03_class_order_loop).
+   binarySubProblem on class-sorted batches (non-empty single-class batches, ascending labels: what
+   repartitionByClass establishes) returns exactly the batches / elements of the two classes, in order,
+   relabelled (label == oneClass), for either order of the two arguments; a missing class yields the
+   error value (C03_binary_sub_problem, C03_binary_sub_problem_absent_class).
+   DataView: the constructor's index triples address element p at position p and report index p;
+   subset(view, idx) keeps soundness and reports the indexed elements' dataset indices; a subset of a
+   subset is the subset by the composed index vector; toDataset(view, bs) holds the view's elements in
+   view order in batches of at most bs (initializeBatches) (C03_view_of, C03_view_subset,
+   C03_view_subset_compose, C03_to_dataset, C03_view_to_dataset_is_composition).
+   NOT proved (tied to the code by the correspondence run only, see DESIGN.md#C03): the element shape
+   (not part of the Coq model), the batch sharing / makeIndependent discipline, behaviour of
+   binarySubProblem on batches that are NOT class-sorted (outside its documented precondition; the model
+   still follows the code there and is compared).                                                      *)
+From Coq Require Import List Arith Permutation Sorted.
+From SharkV Require Import ListAux C03Model C03Proofs C03Iter C03Class C12Model C12Proofs
+  C03ClassProofs C03BinaryProofs C03ViewProofs C03LoopProofs.
 Import ListNotations.
 
 Theorem C03_optimal_batch_sizes :
@@ -180,8 +196,142 @@ Theorem C03_repartition_by_class :
 Proof. intros I. exact (@repartition_by_class_spec I). Qed.
 Print Assumptions C03_repartition_by_class.
 
+(* repartitionByClass orders class by class, ascending label, stable inside a class.
+   [lex_order g i j] := g i < g j \/ (g i = g j /\ i < j);  [label_at ls i] := nth i ls 0;
+   [class_batched lb] := every batch of lb is non-empty and holds one label only, and the label
+   sequence elems lb is ascending (StronglySorted le).  Together with C03_repartition_by_class
+   (new elements = old elements read through class_order, which is a permutation of all positions). *)
+Theorem C03_repartition_by_class_order :
+  forall I (dI : I) m (d d' : labeled I nat),
+    repartition_by_class dI m d = Some d' ->
+    let ls := elems (labels d) in
+    StronglySorted (lex_order (label_at ls)) (class_order ls) /\
+    class_batched (labels d') /\
+    (forall s, In s (sizes (labels d')) -> 1 <= s <= m) /\
+    sizes (inputs d') = sizes (labels d').
+Proof. intros I. exact (@repartition_by_class_order I). Qed.
+Print Assumptions C03_repartition_by_class_order.
+
+(* ... and that pins the order down completely: it is the stable sort *)
+Theorem C03_class_order_is_the_stable_sort :
+  forall ls idx, Permutation idx (seq 0 (length ls)) ->
+    StronglySorted (lex_order (label_at ls)) idx -> idx = class_order ls.
+Proof. exact class_order_unique. Qed.
+Print Assumptions C03_class_order_is_the_stable_sort.
+
+(* the loops of the C++ function: classIndex = prefix sums of the class counts; for every element in
+   order: elemIndex[classIndex[label]] = running position; ++classIndex[label].  The correspondence run
+   executes this loop model (repartition_by_class_loop) against the real code. *)
+Theorem C03_class_order_loop :
+  forall ls, class_order_loop ls = class_order ls.
+Proof. exact class_order_loop_correct. Qed.
+Print Assumptions C03_class_order_loop.
+
+Theorem C03_repartition_by_class_loop :
+  forall I (dI : I) m d, repartition_by_class_loop dI m d = repartition_by_class dI m d.
+Proof. intros I. exact (@repartition_by_class_loop_correct I). Qed.
+Print Assumptions C03_repartition_by_class_loop.
+
+(* binarySubProblem under its documented precondition.  [keep_label zero one l] := l = zero or l = one;
+   [keep_batch zero one b] := keep_label of the label of the first element of b;
+   [binary_relabel one l] := if l = one then 1 else 0 *)
+Theorem C03_binary_sub_problem :
+  forall I (z : @data (I * nat)) zero one,
+    class_batched (labels (paired z)) -> zero <> one ->
+    In zero (elems (labels (paired z))) -> In one (elems (labels (paired z))) ->
+    exists z',
+      binary_sub_problem zero one (paired z) =
+        Some (mkL (transform fst z') (transform (fun p => binary_relabel one (snd p)) z')) /\
+      z' = filter (keep_batch zero one) z /\
+      elems z' = filter (fun p => keep_label zero one (snd p)) (elems z).
+Proof. intros I. exact (@binary_sub_problem_spec I). Qed.
+Print Assumptions C03_binary_sub_problem.
+
+Theorem C03_binary_sub_problem_absent_class :
+  forall I (d : labeled I nat) zero one,
+    ~ In zero (elems (labels d)) \/ ~ In one (elems (labels d)) -> binary_sub_problem zero one d = None.
+Proof. intros I. exact (@binary_sub_problem_absent I). Qed.
+Print Assumptions C03_binary_sub_problem_absent_class.
+
+(* every labelled dataset whose two containers are batched identically is a dataset of pairs, so the
+   result of repartitionByClass satisfies the hypotheses of C03_binary_sub_problem *)
+Theorem C03_identically_batched_is_paired :
+  forall I L (d : labeled I L), sizes (inputs d) = sizes (labels d) -> exists z, d = paired z.
+Proof. intros I L. exact (@paired_exists I L). Qed.
+Print Assumptions C03_identically_batched_is_paired.
+
+(* DataView.  [view_wf d v]: every entry e of v addresses (batch, position in batch) the element whose
+   dataset index it reports: view_get d e = nth_error (elems d) (index e), index e < nelems d *)
+Theorem C03_view_of :
+  forall A (d : @data A),
+    map (view_get d) (view_of d) = map Some (elems d) /\
+    map vi_dataset_index (view_of d) = seq 0 (nelems d) /\
+    view_wf d (view_of d).
+Proof. intros A d. destruct (view_of_spec d). repeat split; auto. apply view_of_wf. Qed.
+Print Assumptions C03_view_of.
+
+Theorem C03_view_subset :
+  forall A (d : @data A) v idx v', view_wf d v -> view_subset v idx = Some v' ->
+    view_wf d v' /\ length v' = length idx /\
+    map vi_dataset_index v' = map (fun i => vi_dataset_index (nth i v (0, 0, 0))) idx.
+Proof. intros A. exact (@view_subset_spec A). Qed.
+Print Assumptions C03_view_subset.
+
+Theorem C03_view_subset_compose :
+  forall v i1 i2 v1 v2, view_subset v i1 = Some v1 -> view_subset v1 i2 = Some v2 ->
+    view_subset v (map (fun j => nth j i1 0) i2) = Some v2.
+Proof. exact view_subset_compose. Qed.
+Print Assumptions C03_view_subset_compose.
+
+Theorem C03_to_dataset :
+  forall A (dflt : A) (d : @data A) v bs, view_wf d v ->
+    exists d', to_dataset d v bs = Some d' /\
+      elems d' = map (fun e => nth (vi_dataset_index e) (elems d) dflt) v /\
+      sum (sizes d') = length v /\
+      (v <> [] -> sizes d' = init_sizes (length v) bs) /\
+      (forall s, In s (sizes d') -> 1 <= s /\ (0 < bs -> s <= bs)).
+Proof. intros A. exact (@to_dataset_spec A). Qed.
+Print Assumptions C03_to_dataset.
+
+Theorem C03_view_to_dataset_is_composition :
+  forall A (dflt : A) idx bs (d : @data A),
+    view_to_dataset dflt idx bs d =
+    match view_subset (view_of d) idx with Some v => to_dataset d v bs | None => None end.
+Proof. intros A. exact (@view_to_dataset_is_composition A). Qed.
+Print Assumptions C03_view_to_dataset_is_composition.
+
 (* non-vacuity *)
 Example C03_example :
   exists d l r, create [1;2;3;4;5;6;7] 3 = Some d /\ sizes d = [3;2;2] /\
                 split_at_element 4 d = Some (l, r) /\ elems l = [1;2;3;4] /\ sizes r = [1;2].
 Proof. eexists. eexists. eexists. vm_compute. repeat split; reflexivity. Qed.
+
+(* the hypotheses of the class-order / binarySubProblem / view theorems are satisfiable *)
+Example C03_class_example :
+  exists z, repartition_by_class 0 2 (paired [[(10,2);(11,0);(12,1)];[(13,0);(14,2)]]) = Some (paired z) /\
+            z = [[(11,0);(13,0)];[(12,1)];[(10,2);(14,2)]] /\
+            class_batched (labels (paired z)) /\ 0 <> 2 /\
+            In 2 (elems (labels (paired z))) /\ In 0 (elems (labels (paired z))) /\
+            binary_sub_problem 2 0 (paired z) = Some (paired [[(11,1);(13,1)];[(10,0);(14,0)]]).
+Proof.
+  exists [[(11,0);(13,0)];[(12,1)];[(10,2);(14,2)]].
+  assert (H : repartition_by_class 0 2 (paired [[(10,2);(11,0);(12,1)];[(13,0);(14,2)]])
+              = Some (paired [[(11,0);(13,0)];[(12,1)];[(10,2);(14,2)]])) by (vm_compute; reflexivity).
+  split; [exact H|]. split; [reflexivity|].
+  split; [exact (proj1 (proj2 (C03_repartition_by_class_order _ _ _ _ _ H)))|].
+  split; [discriminate|]. vm_compute. intuition.
+Qed.
+
+Example C03_view_example :
+  exists v1 v2 d', view_subset (view_of [[10;11;12];[13;14]]) [4;0;0;2] = Some v1 /\ view_subset v1 [3;1;0] = Some v2 /\
+    view_wf [[10;11;12];[13;14]] v2 /\ to_dataset [[10;11;12];[13;14]] v2 2 = Some d' /\ d' = [[12;10];[14]].
+Proof.
+  set (d := [[10;11;12];[13;14]]).
+  pose (v1 := map (fun i => nth i (view_of d) (0, 0, 0)) [4;0;0;2]).
+  assert (E1 : view_subset (view_of d) [4;0;0;2] = Some v1) by (vm_compute; reflexivity).
+  pose (v2 := map (fun i => nth i v1 (0, 0, 0)) [3;1;0]).
+  assert (E2 : view_subset v1 [3;1;0] = Some v2) by (vm_compute; reflexivity).
+  exists v1, v2, [[12;10];[14]]. split; [exact E1|]. split; [exact E2|]. split.
+  - exact (proj1 (C03_view_subset _ d v1 _ v2 (proj1 (C03_view_subset _ d _ _ v1 (view_of_wf d) E1)) E2)).
+  - split; vm_compute; reflexivity.
+Qed.
